@@ -14,6 +14,7 @@ import (
 	"bytes"
 	"context"
 	"encoding/json"
+	"errors"
 	"fmt"
 	"io"
 	"math"
@@ -45,6 +46,11 @@ type sbrAction struct {
 	Empty   bool   `json:"e,omitempty"`  // start: no prompt / messages / input (a "load" request; with keep_alive 0 an unload)
 	Work    int    `json:"w,omitempty"`  // start: index into sbrWork: how long the runner takes to answer (0 = until a finish action)
 	Delay   int    `json:"dl,omitempty"` // start, unload: index into sbrDelay: the request arrives this much virtual time later
+	Inputs  int    `json:"in,omitempty"` // start embed: number of inputs (0, 1 = one); they are embedded concurrently by the handler
+	FailIn  int    `json:"fi,omitempty"` // start embed: 1-based index of the input whose Embedding fails (0 = none)
+	FailAt  int    `json:"fa,omitempty"` // start embed: index into sbrFailAt: virtual time after which that Embedding fails
+	Long    bool   `json:"lg,omitempty"` // start embed: the first input exceeds the context length (truncated through Detokenize)
+	Linger  int    `json:"li,omitempty"` // start: index into sbrLinger: how the runner reacts when the context of a running call ends
 	Idx     int    `json:"i,omitempty"`  // intent index, taken modulo the live candidates
 	Dur     int    `json:"d,omitempty"`  // advance: index into sbDurations
 	Fail    bool   `json:"f,omitempty"`  // ping: make it fail
@@ -75,8 +81,15 @@ var (
 	// a request can arrive later, at an exact virtual instant (the same instant as a keep-alive expiry, the end of another
 	// request, the scheduler's 10 ms expiry retry or its 250 ms reschedule delay)
 	sbrDelay = []time.Duration{0, time.Millisecond, 10 * time.Millisecond, 30*time.Millisecond - 1, 30 * time.Millisecond, 250 * time.Millisecond, 2 * time.Second}
-	sbrReqs  = []string{"generate", "generate", "generate", "chat", "chat", "embed", "embeddings"}
+	// the Embedding of the failing input of a multi-input /api/embed request returns its error after this much virtual time
+	sbrFailAt = []time.Duration{0, time.Millisecond, 30 * time.Millisecond}
+	// a running Completion / Embedding whose context ends returns at once, a little later (the abort takes time), or only
+	// when the computation is over (-1: a computation in the runner is not interrupted from the client side)
+	sbrLinger = []time.Duration{0, time.Millisecond, 10 * time.Millisecond, -1}
+	sbrReqs   = []string{"generate", "generate", "generate", "chat", "chat", "embed", "embed", "embeddings"}
 )
+
+const sbrFailText = "cannot-embed" // the fake runner refuses an input containing this word
 
 const sbrNumVariants = 4 // 0 default, 1 num_ctx 4096, 2 num_batch 256, 3 num_gpu 0
 
@@ -114,6 +127,15 @@ func sbrGen(t *rapid.T) sbrCase {
 			a.Work = rapid.SampledFrom([]int{0, 0, 0, 0, 1, 2, 3, 4}).Draw(t, "work")
 			if rapid.IntRange(0, 3).Draw(t, "delayed") == 0 {
 				a.Delay = rapid.IntRange(1, len(sbrDelay)-1).Draw(t, "delay")
+			}
+			a.Linger = rapid.SampledFrom([]int{0, 0, 1, 2, 3, 3}).Draw(t, "linger")
+			if a.Req == "embed" {
+				a.Inputs = rapid.SampledFrom([]int{1, 2, 2, 3, 4}).Draw(t, "inputs")
+				if a.Inputs > 1 && rapid.IntRange(0, 2).Draw(t, "input_fails") > 0 {
+					a.FailIn = rapid.IntRange(1, a.Inputs).Draw(t, "fail_input")
+					a.FailAt = rapid.IntRange(0, len(sbrFailAt)-1).Draw(t, "fail_at")
+				}
+				a.Long = rapid.IntRange(0, 7).Draw(t, "long_input") == 0
 			}
 		case "finish", "giveup", "loadok", "loadfail":
 			a.Idx = rapid.IntRange(0, 5).Draw(t, "idx")
@@ -259,7 +281,8 @@ func (s *sbrSrv) work(ctx context.Context, r *sbrReq) error {
 	}
 	x, e := s.x, s.x.e
 	d := sbrWork[r.a.Work%len(sbrWork)]
-	var gate chan struct{}
+	linger := sbrLinger[r.a.Linger%len(sbrLinger)]
+	var done <-chan struct{} // closed by a finish action (nil for a call that takes virtual time)
 	e.mu.Lock()
 	if x.releaseAll || r.released {
 		d = 0
@@ -268,37 +291,85 @@ func (s *sbrSrv) work(ctx context.Context, r *sbrReq) error {
 		if r.gate == nil {
 			r.gate = make(chan struct{}) // made inside the bubble: waiting on it is a durable block
 		}
-		gate = r.gate
-		r.holding = true
+		done = r.gate
+		r.holding++ // several calls of one request (the inputs of /api/embed) can wait at the same time
 		e.flag("hold")
 		e.logf("hold req=%d inst=%d", r.sb.id, s.id)
 	}
 	e.mu.Unlock()
-	var err error
+	var timer <-chan time.Time // a nil channel never fires: exactly one of gate / timer is set below
 	switch {
-	case d < 0:
-		select {
-		case <-gate:
-		case <-ctx.Done():
-			err = ctx.Err()
-		}
-		e.mu.Lock()
-		r.holding = false
-		e.mu.Unlock()
+	case d == 0:
+		return ctx.Err()
 	case d > 0:
 		tm := time.NewTimer(d)
+		defer tm.Stop()
+		timer = tm.C
+	default:
+		defer func() {
+			e.mu.Lock()
+			r.holding--
+			e.mu.Unlock()
+		}()
+	}
+	select {
+	case <-done:
+		return ctx.Err()
+	case <-timer:
+		return ctx.Err()
+	case <-ctx.Done():
+	}
+	// the context of a running call has ended (its client gave up): what the runner does then is drawn
+	switch {
+	case linger < 0:
+		e.mu.Lock()
+		e.flag("call_outlives_context")
+		e.mu.Unlock()
+		select { // the computation runs to its end
+		case <-done:
+		case <-timer:
+		}
+	case linger > 0:
+		tm := time.NewTimer(linger)
+		defer tm.Stop()
 		select {
 		case <-tm.C:
-		case <-ctx.Done():
-			tm.Stop()
-			err = ctx.Err()
+		case <-done:
+		case <-timer:
 		}
 	}
-	return err
+	return ctx.Err()
 }
 
-func (s *sbrSrv) Completion(ctx context.Context, req llm.CompletionRequest, fn func(llm.CompletionResponse)) error {
-	r := s.use(ctx, "completion")
+// enter / leave bracket one Completion or Embedding call: while any call of a request is executing the request is in
+// progress on that instance (a handler cannot return before its calls have).
+func (s *sbrSrv) enter(ctx context.Context, what string) *sbrReq {
+	r := s.use(ctx, what)
+	if r != nil {
+		s.x.e.mu.Lock()
+		r.active++
+		s.x.e.mu.Unlock()
+	}
+	return r
+}
+
+func (s *sbrSrv) leave(r *sbrReq, what string, err error) {
+	if r == nil {
+		return
+	}
+	e := s.x.e
+	e.mu.Lock()
+	r.active--
+	e.logf("%s returns req=%d inst=%d err=%v (calls of the request still running: %d)", what, r.sb.id, s.id, err, r.active)
+	if s.closeBegun > 0 && !r.sb.finished {
+		e.violate("C01", "runner instance %d (model %d) was shut down while a %s call of request %d, whose handler has not returned and whose client is still there, was executing on it", s.id, s.model, what, r.sb.id)
+	}
+	e.mu.Unlock()
+}
+
+func (s *sbrSrv) Completion(ctx context.Context, req llm.CompletionRequest, fn func(llm.CompletionResponse)) (err error) {
+	r := s.enter(ctx, "completion")
+	defer func() { s.leave(r, "completion", err) }()
 	for _, c := range []string{"Hel", "lo "} {
 		if err := ctx.Err(); err != nil {
 			return err
@@ -313,8 +384,36 @@ func (s *sbrSrv) Completion(ctx context.Context, req llm.CompletionRequest, fn f
 	return nil
 }
 
-func (s *sbrSrv) Embedding(ctx context.Context, input string) ([]float32, error) {
-	r := s.use(ctx, "embedding")
+func (s *sbrSrv) Embedding(ctx context.Context, input string) (v []float32, err error) {
+	r := s.enter(ctx, "embedding")
+	defer func() { s.leave(r, "embedding", err) }()
+	if r != nil && strings.Contains(input, sbrFailText) {
+		// the input the runner cannot embed: the error comes at once or after a while, typically while the embeddings of the
+		// request's other inputs are still being computed
+		if d := sbrFailAt[r.a.FailAt%len(sbrFailAt)]; d > 0 {
+			tm := time.NewTimer(d)
+			defer tm.Stop()
+			select {
+			case <-tm.C:
+			case <-ctx.Done():
+			}
+		}
+		e := s.x.e
+		e.mu.Lock()
+		e.flag("embed_input_fails")
+		if n := min(max(r.a.Inputs, 1), 4); r.embedded < n-1 {
+			e.flag("embed_input_fails_while_others_run") // the Embedding of another input has not returned yet (or not begun)
+		}
+		e.mu.Unlock()
+		return nil, errors.New("fake: runner could not embed this input")
+	}
+	if r != nil {
+		defer func() {
+			s.x.e.mu.Lock()
+			r.embedded++
+			s.x.e.mu.Unlock()
+		}()
+	}
 	if err := s.work(ctx, r); err != nil {
 		return nil, err
 	}
@@ -349,7 +448,9 @@ type sbrReq struct {
 	status                        int
 	gaveUp                        bool
 	gate                          chan struct{}
-	holding                       bool // the runner waits for the harness to finish this request
+	holding                       int // calls of this request that wait in the runner for the harness to finish it
+	active                        int // Completion / Embedding calls of this request that have not returned
+	embedded                      int // Embedding calls of inputs the runner accepts that have returned
 	released                      bool
 	quiet                         bool // issued by the drain: not classified
 }
@@ -453,8 +554,26 @@ func (x *sbrEngine) start(a sbrAction, unload bool) {
 				body["stream"] = false
 			}
 		case "embed":
-			if !a.Empty {
+			if n := min(max(a.Inputs, 1), 4); !a.Empty && n == 1 && !a.Long {
 				body["input"] = "some text"
+			} else if !a.Empty {
+				var in []string
+				for i := 0; i < n; i++ {
+					t := fmt.Sprintf("text of input %d", i)
+					if i == 0 && a.Long {
+						t = strings.Repeat("w ", 2100) + t // more tokens than the default context: truncated through Detokenize
+					}
+					if a.FailIn > 0 && i == (a.FailIn-1)%n {
+						t = sbrFailText + " " + t
+					}
+					in = append(in, t)
+				}
+				body["input"] = in
+				if n > 1 {
+					e.mu.Lock()
+					e.flag("embed_multi_input")
+					e.mu.Unlock()
+				}
 			}
 		case "embeddings":
 			if !a.Empty {
@@ -467,6 +586,10 @@ func (x *sbrEngine) start(a sbrAction, unload bool) {
 		}
 	}
 	js, _ := json.Marshal(body)
+	shown := string(js)
+	if len(shown) > 400 {
+		shown = shown[:150] + " ... " + shown[len(shown)-200:]
+	}
 	r := &sbrReq{a: a, path: path, unload: unload, rw: &c04Recorder{ResponseRecorder: httptest.NewRecorder()}}
 	ctx, cancel := context.WithCancel(context.WithValue(context.Background(), sbrCtxKey{}, r))
 	r.sb = &sbReq{model: m, opts: opts, mdl: e.models[m], cancel: cancel}
@@ -490,9 +613,9 @@ func (x *sbrEngine) start(a sbrAction, unload bool) {
 	}
 	if delay > 0 {
 		e.flag("delayed_arrival")
-		e.logf("start req=%d in %v POST %s %s", r.sb.id, delay, path, js)
+		e.logf("start req=%d in %v POST %s %s", r.sb.id, delay, path, shown)
 	} else {
-		e.logf("start req=%d POST %s %s", r.sb.id, path, js)
+		e.logf("start req=%d POST %s %s", r.sb.id, path, shown)
 	}
 	e.mu.Unlock()
 	if unload && delay == 0 {
@@ -659,7 +782,7 @@ func (x *sbrEngine) do(a sbrAction) {
 		e.mu.Lock()
 		var cand []*sbrReq
 		for _, r := range x.reqs {
-			if r.holding && !r.released && !r.gaveUp {
+			if r.holding > 0 && !r.released && !r.gaveUp {
 				cand = append(cand, r)
 			}
 		}
@@ -738,7 +861,7 @@ func (x *sbrEngine) drain() {
 			}
 		}
 		for _, r := range x.reqs {
-			if r.holding && !r.released {
+			if r.holding > 0 && !r.released {
 				r.released = true
 				gates = append(gates, r.gate)
 				e.logf("drain: finish req=%d", r.sb.id)
